@@ -292,21 +292,15 @@ theorem subLookups_length : ∀ (ls : List (List GsubSub)) (s : St),
   | nil => intro s; rfl
   | cons l ls ih => intro s; simp only [subLookups, List.length_cons, ih]
 
-theorem subsetGsub_good {o : Order} {s s1 : St} {l : Layout GsubSub} {lay : Layout GsubOut}
-    (h : Inv s) (hr : subsetGsub o s l = some (s1, lay)) :
-    Inv s1 ∧ Ext s s1 ∧ lay.features = l.features ∧ lay.lookups.length = l.lookups.length := by
-  unfold subsetGsub at hr
-  simp only at hr
-  split at hr
-  · cases hr
-  · rename_i s' hs'
-    injection hr with hr
-    have hg := gsubLoop_good _ _ _ _ h hs'
-    have hl := subLookups_good l.lookups s' hg.1
-    have h1 : s1 = (subLookups s' l.lookups).1 := (congrArg Prod.fst hr).symm
-    have h2 : lay = ⟨l.features, (subLookups s' l.lookups).2⟩ := (congrArg Prod.snd hr).symm
-    subst h1; subst h2
-    exact ⟨hl.1, hg.2.trans hl.2, rfl, subLookups_length _ _⟩
+theorem gsubClose_good {ro : List Rule → List Rule} {s s1 : St} {l : Layout GsubSub}
+    (h : Inv s) (hr : gsubClose ro s l = some s1) : Inv s1 ∧ Ext s s1 :=
+  gsubLoop_good _ _ _ _ h hr
+
+theorem rebuildGsub_good (s : St) (h : Inv s) (g : Option (Layout GsubSub)) :
+    Inv (rebuildGsub s g).1 ∧ Ext s (rebuildGsub s g).1 := by
+  cases g with
+  | none => exact ⟨h, Ext.refl s⟩
+  | some l => exact subLookups_good l.lookups s h
 
 /-! ### composite closure -/
 
